@@ -509,8 +509,9 @@ def r7(ctx):
 
 def r8(ctx, rule="C17.R8"):
     ctx.rule(rule, "the root flag is consumed: a ProtobufWriter method that looks at `is_root` and then hands the writer to nested "
-                   "content (the closure of a SEQUENCE/SET, Constraint::write_content of a CHOICE) has cleared the flag with "
-                   "mem::take / mem::replace on a block dominating that hand-over - otherwise the nested message is written as if it "
+                   "content (the closure of a SEQUENCE/SET, Constraint::write_content of a CHOICE) has cleared the flag (mem::take / "
+                   "mem::replace / `is_root = false`) on a block dominating that hand-over, or is on the false side of a test of the "
+                   "flag - otherwise the nested message is written as if it "
                    "were the root: without its tag and length, and it reads back as another field")
     P = ctx.program()
     n = 0
@@ -526,7 +527,22 @@ def r8(ctx, rule="C17.R8"):
         if not nested or not (takes or reads):
             continue
         n += 1
-        late = [c for c in nested if not any(t.target is not None and (t.target == c.bb or b.dominates(t.target, c.bb)) for t in takes)]
+        # the flag is also consumed by `self.is_root = false` in front of the hand-over, and it is known to be clear on the
+        # false side of a test of the flag
+        clears = [bb for bb, j, st in b.all_statements() if st["k"] == "assign" and st["pl"]["p"] and st["pl"]["p"][-1].get("n") == "is_root"
+                  and st["rv"]["k"] == "use" and st["rv"]["op"].get("k") == "const" and st["rv"]["op"].get("val") == "0"]
+
+        def known_clear(c):
+            if any(t.target is not None and (t.target == c.bb or b.dominates(t.target, c.bb)) for t in takes):
+                return True
+            if any(cb == c.bb or b.dominates(cb, c.bb) for cb in clears):
+                return True
+            for s_bb, ex, val in R.path_conditions(b, O, c.bb):
+                e = X.strip(ex)
+                if e[0] == "field" and e[2] == "is_root" and not val:
+                    return True
+            return False
+        late = [c for c in nested if not known_clear(c)]
         detail = {"function": b.path, "nested_hand_overs": [c.loc() for c in nested], "flag_cleared_at": [t.loc() for t in takes],
                   "plain_reads_of_is_root": len(reads)}
         if late:
